@@ -176,16 +176,17 @@ Frame == [][\A j \in 1..Len(objs) : (j # last'.o.k \/ Target(last'.o) = "new") =
 (***************************************************************************)
 RandCPD(P) == [parents |-> P, random |-> TRUE, f |-> [scope |-> {}, val |-> <<>>]]
 CPDMaps(N) == UNION {{c \in [D -> {RandCPD(P) : P \in SUBSET Vars}] : \A v \in D : v \notin c[v].parents} : D \in SUBSET N}
-StructModels ==
+\* (an operator WITH a parameter: TLC evaluates parameterless constant definitions when it starts, for every configuration)
+StructModels(V) ==
     UNION {UNION {{[nodes |-> N, edges |-> E, latents |-> L, cpds |-> c] : L \in SUBSET N, c \in CPDMaps(N)}
-                  : E \in {X \in SUBSET (N \X N) : Acyclic(N, X)}} : N \in SUBSET Vars}
+                  : E \in {X \in SUBSET (N \X N) : Acyclic(N, X)}} : N \in SUBSET V}
 IndInvOf(m) == /\ Acyclic(m.nodes, m.edges)
                /\ \A e \in m.edges : e[1] \in m.nodes /\ e[2] \in m.nodes
                /\ m.latents \subseteq m.nodes
                /\ DOMAIN m.cpds \subseteq m.nodes
 IndInv == \A k \in 1..Len(objs) : IndInvOf(objs[k])
 IndInit == /\ sid = 0 /\ hist = <<>> /\ last = [o |-> NoOp, ret |-> "init"]
-           /\ \E m \in StructModels : objs = <<m>>
+           /\ \E m \in StructModels(Vars) : objs = <<m>>
 OneStep == TLCGet("level") <= 2
 
 \* depth bounds for the history-free BFS (TLCGet("level") counts states on the path)
